@@ -107,7 +107,7 @@ class LawHooks:
     def call(self, sm, node, fname, args, kwargs, st):
         if fname == "_get_lopt" and len(args) == 4 and isinstance(args[0], Sym) and args[0].key == ("name", "pstate") \
                 and args[1] == "off" and args[3] is False and isinstance(args[2], RF) and args[2].is_const():
-            return BoolV(A(("B", "OFF", int(args[2].const_value()))))
+            return BoolV(sm.ctx.fold(("B", "OFF", int(args[2].const_value()))))
         if fname == "self._ipr._interp" and len(args) == 2:
             st.events.append(("ipr", vkey(args[0]), vkey(args[1]), node.lineno))
             return ipr(to_num(args[0]), to_num(args[1]))
@@ -314,13 +314,15 @@ def rows(leaves, ctx, extra_atoms=()):
 
 
 def is_dead_row(alpha, kind):
-    """row of table D: zero/off supply, mux without live input, or phase-inactive (sleep)"""
+    """row of table D: zero / off supply, mux without live input, source programmed to 0 V"""
     if alpha.get(("B", "OFF", 0)):
         return True
+    if alpha.get(("Z", ("m", "vi[0]"))):
+        return True
+    if kind == "Source" and alpha.get(("Z", ("m", "P.vo"))):
+        return True
     for k, v in alpha.items():
-        if v and k[0] == "Z" and k[1] in (("m", "vi[0]"), ("m", "P.vo")) and (kind == "Source" or k[1] == ("m", "vi[0]")):
-            return True
-        if v and k[0] == "ZP" and "PRI" in repr(k[1]) or (v and k[0] == "ZP" and any(a == ("fr", "PRI") for a in k[1].atoms())):
+        if v and k[0] == "ZP" and ("fr", "PRI") in k[1].atoms():
             return True
     return False
 
